@@ -159,6 +159,8 @@ pub struct Endpoint {
     pub auto_ack: bool,
     unreturned_conn: i64,
     unreturned_stream: BTreeMap<u32, i64>,
+    /// after we shrank our initial window: stream-window overruns are not judged until the peer acked
+    pub grace_until_settings_ack: bool,
 }
 
 impl Endpoint {
@@ -188,6 +190,7 @@ impl Endpoint {
             auto_ack: true,
             unreturned_conn: 0,
             unreturned_stream: BTreeMap::new(),
+            grace_until_settings_ack: false,
         }
     }
 
@@ -274,7 +277,7 @@ impl Endpoint {
                     let sw = self.stream_recv_window.entry(f.stream).or_insert(init);
                     *sw -= n;
                     self.conn_recv_window -= n;
-                    if *sw < 0 {
+                    if *sw < 0 && !self.grace_until_settings_ack {
                         self.protocol_errors.push(format!("stream {} received {} bytes beyond its flow-control window", f.stream, -*sw));
                     }
                     if self.conn_recv_window < 0 {
@@ -349,6 +352,7 @@ impl Endpoint {
                 SETTINGS => {
                     if f.flags & F_ACK != 0 {
                         self.our_settings_acked = true;
+                        self.grace_until_settings_ack = false;
                     } else {
                         self.peer_settings_frames += 1;
                         for c in f.payload.chunks_exact(6) {
